@@ -159,6 +159,7 @@ class Contract:
     kind: str = "function"  # 'function' | 'race' | 'lemma'
     ghost_params: dict = field(default_factory=dict)
     decreases: str | None = None  # termination measure of a recursive lemma function
+    ret_meta: dict = field(default_factory=dict)  # ghost flags of the returned array: name -> spec expr (e.g. zerod_if)
     after_assign: dict = field(default_factory=dict)  # local name -> [(label, expr)] proved right after it is assigned
     skip_cases: list = field(default_factory=list)  # case labels whose preconditions are contradictory by construction
     float_err: bool = False  # scalar float arithmetic under the relative-error model fl(a op b) = (a op b)(1+e), |e| <= 2^-53
